@@ -40,6 +40,12 @@ mod c17;
 mod concat;
 mod c18;
 mod c19;
+mod c20;
+#[cfg(feature = "allocmon")]
+mod allocmon;
+#[cfg(feature = "allocmon")]
+#[global_allocator]
+static GLOBAL: allocmon::Mon = allocmon::Mon;
 #[cfg(feature = "statictz")]
 mod gen_static {
     include!(env!("JV_GEN_STATIC"));
@@ -113,6 +119,7 @@ fn prop_fn(name: &str) -> Option<fn(&mut rep::Ctx)> {
         "c17" => c17::run,
         "c18" => c18::run,
         "c19" => c19::run,
+        "c20" => c20::run,
         _ => return None,
     })
 }
